@@ -159,6 +159,7 @@ def run(repo: Repo, rep: Report, tier: str) -> None:
 
     # ---- premise: who writes _dataset_path ------------------------------------
     path_only_with_none_ds = _check_path_premise(repo, rep)
+    rep.floor("functions that build and send a primitive", check_sent_primitives_fresh(repo, rep), 30)
 
     points = []
     for has_kw in (True, False):
@@ -495,3 +496,33 @@ def _block_of(fn: ast.AST, st: ast.stmt) -> list:
             if isinstance(b, list) and any(x is st for x in b):
                 return b
     return []
+
+
+def check_sent_primitives_fresh(repo: Repo, rep: Report, rule: str = "path-premise") -> int:
+    """The other half of the premise: the receive side *does* set _dataset_path (and DataSet) on request primitives,
+    so a primitive that is sent must never be a received one or a copy of one - every primitive handed to
+    send_msg is built in that function by a dimse_primitives constructor (validate_status(.., rsp) hands the same
+    object back). `rsp = copy(req)` carries the request's private data-set state into the response: the command
+    set then announces a data set that is never sent."""
+    prim = set(repo.mod("dimse_primitives").classes)
+    n = 0
+    for mname in ("service_class", "service_class_n", "association"):
+        m = repo.mod(mname)
+        for c in ast.walk(m.tree):
+            if not (isinstance(c, ast.Call) and (dotted(c.func) or "").endswith("dimse.send_msg") and c.args and isinstance(c.args[0], ast.Name)):
+                continue
+            fn = enclosing(c, (ast.FunctionDef,))
+            if fn is None:
+                continue
+            x = c.args[0].id
+            binds = [a for a in walk_no_nested(fn) if isinstance(a, ast.Assign) and any(norm(t) == x for t in a.targets)]
+            binds += [a for a in walk_no_nested(fn) if isinstance(a, ast.AnnAssign) and a.value is not None and norm(a.target) == x]
+            if not binds:
+                continue  # handed in (a send helper): its callers are checked where they bind it
+            n += 1
+            fq = f"{mname}.{qualname(c)}"
+            for a in binds:
+                v = strip_cast(a.value)
+                ok = isinstance(v, ast.Call) and ((isinstance(v.func, ast.Name) and v.func.id in prim and not v.args and not v.keywords) or ((dotted(v.func) or "").endswith("validate_status") and v.args and norm(v.args[-1]) == x))
+                rep.check(ok, rule, fq, a, f"`{x}` is sent with send_msg but bound from `{norm(a.value)[:60]}`: a primitive that is sent must be built by a dimse_primitives constructor - one derived from a received primitive keeps that primitive's private data-set state (_dataset_path / DataSet), so the command set announces a data set the sender never transmits and the peer never completes the message", mod=m, node=a)
+    return n
